@@ -57,8 +57,8 @@ TEXTS = {
   technique='translation validation by a Lean-proved order checker + differential correspondence + Go order-validity oracle',
  ),
  'C11': dict(
-  text='Proved in Lean: countLines_eq_split (the line counter used when a file is first seen equals the number of lines the diff splitter produces, for every byte string: empty, no final newline, CR LF, invalid UTF-8), splitLines_join, translate_ok_of_canon (a canonical script with positive run lengths is never rejected by the burndown edit loop), validScript_sound (a script accepted by the executable validator has consistent line counts on both sides and applies to the old line array giving the new one). Models compared with CountLines / DiffLinesToRunes on every run; every diff produced by the real FileDiff on generated blob pairs (incl. very long lines) is checked by the Lean validator and Go-side for the canonical shape and count consistency.',
-  note=COMMON_NOTE + 'diffmatchpatch itself and its timeouts are not modelled; whitespace-ignore mode: known finding D14.',
+  text='Proved in Lean: countLines_eq_split (the line counter used when a file is first seen equals the number of lines the diff splitter produces, for every byte string: empty, no final newline, CR LF, invalid UTF-8), splitLines_join, translate_ok_of_canon (a canonical script with positive run lengths is never rejected by the burndown edit loop), validScript_sound (a script accepted by the executable validator has consistent line counts on both sides and applies to the old line array giving the new one). countLines_stripWS (whitespace-ignore mode: removing the spaces never changes the number of lines; the model of stripWhitespace mirrors fix 5c77e2f). Models compared with CountLines / DiffLinesToRunes / stripWhitespace on every run; every diff produced by the real FileDiff on generated blob pairs (incl. very long lines) is checked by the Lean validator and Go-side for the canonical shape and count consistency.',
+  note=COMMON_NOTE + 'diffmatchpatch itself and its timeouts are not modelled; whitespace-ignore mode: defect D14 found by the oracle, repaired by a fix: commit.',
   technique='Lean 4 proof + differential correspondence + script validator oracle',
  ),
  'C12': dict(
